@@ -126,7 +126,7 @@ def run(res, replay=None):
         for gi in active:
             mv = geo.model_cell_view(rec, gi)
             iv = geo.impl_cell_view(rec, gi)
-            if mv is None or iv is None or not iv["faces_mapped"]:
+            if mv is None or iv is None:
                 continue
             mine = by_cell.get(gi, [])
             if len(mine) != len(iv["face_planes"]):
